@@ -113,7 +113,9 @@ def mutations(obj, rng):
     if 'status' in d['index']:
         out += [('status-write', lambda: d['_status'].__setitem__(rng.randrange(n), 'X')), ('iterations-write', lambda: d['_iterations'].__setitem__(rng.randrange(n), 77))]
     newname = f'N{rng.randrange(1000)}'
-    out += [('add-variable', lambda: obj.add_variable(newname, 2.0)), ('add-attribute', lambda: obj.add_attribute('attr' + newname, {'k': [1]})),
+    attr_name = rng.choice(['attr' + newname, 'model', 'mode', 'sub', 'models', 's', 'e', 'data', 'note', 'id_', 'spans', 'x'])
+    out += [('add-variable', lambda: obj.add_variable(newname, 2.0)), ('add-attribute', lambda: obj.add_attribute(attr_name, {'k': [1]})),
+            ('set-new-attribute', lambda: setattr(obj, attr_name + '_', [1, 2])),
             ('strict-toggle', lambda: setattr(obj, 'strict', not obj.strict))]
     if 'memo' in d:
         out += [('attribute-list-append', lambda: d['memo'].append(5)), ('attribute-nested-append', lambda: d['memo'][1].append(9))]
